@@ -1174,14 +1174,24 @@ fn eval_c05(sc: &Scenario) -> Outcome {
         out.cov.probe("variant_twin", 1);
     }
     let nearest = (cfg_a.kind.is_sinc() && cfg_a.interp % 4 == 0) || (cfg_a.kind.is_fast() && cfg_a.degree % 5 == 0);
-    let tol = if nearest { 0.0 } else if cfg_a.f32 { 1e-4 } else { 1e-6 };
+    // Tolerance = rounding of the arithmetic on the samples (base) + the worst-case drift of the carried read position:
+    // every output frame adds the step to a position of magnitude up to `pos_mag` (chunk-relative), so after k frames
+    // the two partitions' positions can differ by k * ulp(pos_mag); times a slope bound for the interpolated signal.
+    let base = if nearest { 0.0 } else if cfg_a.f32 { 3e-5 } else { 2e-8 };
+    let pos_mag = a.steps.iter().chain(b.steps.iter()).map(|s| s.pre.in_next).max().unwrap_or(1) as f64 + 2.0 * cfg_a.filter_len() as f64 + 16.0;
+    let drift_per_frame = if nearest || cfg_a.kind.is_fft() { 0.0 } else { pos_mag * f64::EPSILON * 16.0 };
     for c in 0..cfg_a.channels {
         let ya = &a.out[c];
         let yb = &b.out[c];
         let n = ya.len().min(yb.len());
         let peak = ya[..n].iter().fold(1.0f64, |m, v| m.max(v.abs()));
+        let mut worst = 0.0f64;
         for k in 0..n {
             let d = (ya[k] - yb[k]).abs();
+            if d > worst {
+                worst = d;
+            }
+            let tol = base + (k as f64 + 1.0) * drift_per_frame;
             if !(d <= tol * peak) {
                 let sa_ = a.steps.iter().rev().find(|s| s.out_before <= k as u64 && s.code == 0).map(|s| s.op).unwrap_or(0);
                 out.push(
@@ -1194,6 +1204,12 @@ fn eval_c05(sc: &Scenario) -> Outcome {
             }
         }
         out.cov.probe("frames_compared", n as u64);
+        let rel = worst / peak;
+        let scale = if cfg_a.f32 { 1e2 } else { 1.0 };
+        out.cov.probe("twin_diff_above_1e-10", (rel > 1e-10 * scale) as u64);
+        out.cov.probe("twin_diff_above_1e-9", (rel > 1e-9 * scale) as u64);
+        out.cov.probe("twin_diff_above_1e-8", (rel > 1e-8 * scale) as u64);
+        out.cov.probe("twin_diff_above_1e-7", (rel > 1e-7 * scale) as u64);
     }
     out
 }
